@@ -46,6 +46,9 @@ pub fn install_panic_hook() {
                 }
             }
         }
+        if std::env::var_os("EGV_BT").is_some() {
+            eprintln!("egv harness: panic at {}: {}\n{}", loc, msg, std::backtrace::Backtrace::force_capture());
+        }
         // outside of `catch` nobody will look at LAST_PANIC: the process is about to die with status 101
         if CATCH_DEPTH.with(|d| d.get()) == 0 {
             eprintln!("egv harness: uncaught panic at {}: {}", loc, msg);
